@@ -135,3 +135,19 @@ CHECKS["C02"] = {
     "design_ref": "DESIGN.md section 5 (C02)",
     "note": "Inputs up to ~3 blocks; the full option matrix is sampled (every value of every option, seeded pairing), not enumerated.",
 }
+
+CHECKS["C17"] = {
+    "technique": "TLA+ state machines of the Writer and Reader lifecycles (Writer.tla, Reader.tla: one action per public call, refused "
+                 "calls included); TLC enumerates every call sequence up to the tier's length and each is executed exactly on "
+                 "sequential and concurrent objects; the recorded calls are validated by Writer_Trace / Reader_Trace",
+    "text": "All call sequences of length 4 (quick) / 5 (thorough) over the parameterised call alphabets are generated by TLC from "
+            "the models and replayed on real objects inside watchdogged child processes. The trace specifications accept a run only "
+            "if every call's result, error class and (sequential) sink-call count is the model's, each Close leaves exactly one "
+            "complete, strictly valid frame carrying the bytes accepted since the last Reset with the descriptor the options "
+            "imply (also after Reset), writes after Close produce no output, a second Close produces none, Flush leaves a decodable "
+            "prefix, Read after the end returns io.EOF with zero source bytes consumed, Reset makes the object behave as new, and no "
+            "call hangs, panics or writes without bound.",
+    "design_ref": "DESIGN.md section 5 (C17)",
+    "note": "Misuse not named by the property (Apply after writing, ReadFrom after Write, WriteTo after a partial Read) is modelled as "
+            "the code behaves (error, then error state); only hang/panic/lost or duplicated data would be rejected there.",
+}
